@@ -135,6 +135,16 @@ CHECKS["C18"] = dict(
    note=COMMON_NOTE + "cattrs and json are exercised, not modelled; JSON byte syntax (indentation, escaping) is outside the model - the model is at the level of JSON values with key order.",
    design_ref="DESIGN.md section 6 C18, section 11")
 
+CHECKS["C19"] = dict(
+   technique="Coq: invariant by induction over histories of operations (edits, option / version / plugin changes, outside interference with the cache file, runs, forced refreshes) with the analysis and the hash as section parameters; JSON-level model of the document structuring with read-back theorem; refutation witnesses; scripted histories of real subprocess runs + every truncation / type mutation of real cache files as correspondence and as test of the frame hypothesis",
+   text=("C19_every_run_reports_fresh_results: for EVERY history (any length) every run - hit or miss - reports what a from-scratch analysis of the world at that moment gives, provided the hash is injective, the analysis depends only on what the cache records (FRAME) and the cache file "
+         "is only ever deleted, made unreadable or replaced by a document some run wrote; C19_hit_only_if_unchanged; C19_missing_or_malformed_is_stale; document layer: C19_written_document_reads_back, C19_not_json_or_not_an_object_is_never_trusted, C19_wrongly_typed_field_is_malformed. "
+         "Refuted without the side conditions: C19_tampered_document_refuted / C19_dropped_imports_still_structure (known finding KF_C19_2: lenient structuring), C19_unrecorded_dependency_refuted. FRAME is a hypothesis about the real analyser: it is tested, not proved - after every run of every scripted history "
+         "(real `rattr -C cache [-r]` subprocesses on five projects: chain, package with relative imports, star import, re-export, non-ASCII identifiers) the cache file must equal the from-scratch document of that world; the model's hit flags and documents are compared with the observed ones; "
+         "the real target_cache_file_is_up_to_date is compared with the model on every truncation offset and every type-level mutation / deletion of every field of real cache files. The wrong-shape crash the property text mentions was a genuine defect: repaired in /repo by fix commit e026aed."),
+   note=COMMON_NOTE + "Theorem parameters (Section variables, no axioms): content/hash with hash_injective (md5 collisions outside the model; a missing file hashes like an empty one), analysis/recorded with FRAME. cattrs is modelled only as far as hit / no hit is concerned. A run that exceeds the badness threshold exits before writing the cache and is outside the model. Version / plugin changes are arranged by the harness driver from outside /repo. Creation of a module that did not resolve when the cache was written is outside the property's statement ('every module whose analysis fed the cached results') and outside the histories.",
+   design_ref="DESIGN.md section 6 C19, section 11")
+
 NOT_YET = {}
 
 def main():
